@@ -683,12 +683,18 @@ pub fn replay_layerterm(case: &Value, rep: &mut Report, rng: &mut Rng) {
     let mut cfg = cfg0.clone();
     cfg["act"] = json!(act);
     let u = |k: &str| cfg0[k].as_u64().unwrap() as usize;
-    // rounds 0..2: moderate data; round 3: inputs of magnitude up to 60, so that smooth activations saturate
-    // (pre-activations of a few hundred: the derivative is 0 there, never NaN)
-    for round in 0..4 {
-        let scale = if round == 3 { 40.0 } else { 1.0 };
-        let xs: Vec<f32> = (0..nx).map(|_| (rng.unit() * 3.0 - 1.5) * scale).collect();
-        let ks: Vec<f32> = (0..nk).map(|_| rng.unit() * 2.0 - 1.0).collect();
+    // rounds 0..2: moderate data; rounds 3 and 4: positive parameters and large inputs of one sign, so that every output
+    // fed by more than a few taps has a pre-activation of a few hundred (negative in round 3, positive in round 4):
+    // smooth activations saturate there, their derivative is 0 -- never NaN.  Magnitudes keep |pre| below 700, where the
+    // double-precision reference itself is still finite.
+    let taps = if kind == "dense" { u("c") } else { u("c") * u("kh") * u("kw") } as f32;
+    for round in 0..5 {
+        let saturating = round >= 3;
+        let m = 600.0 / taps;
+        let xs: Vec<f32> = (0..nx)
+            .map(|_| if saturating { (if round == 3 { -m } else { m }) * (0.75 + 0.25 * rng.unit()) } else { rng.unit() * 3.0 - 1.5 })
+            .collect();
+        let ks: Vec<f32> = (0..nk).map(|_| if saturating { 0.5 + 0.5 * rng.unit() } else { rng.unit() * 2.0 - 1.0 }).collect();
         let gs: Vec<f32> = (0..no).map(|_| rng.unit() * 2.0 - 1.0 + 0.05).collect();
         let params = if kind == "dense" {
             let (n_in, n_out) = (u("c"), u("f"));
@@ -731,7 +737,7 @@ pub fn replay_layerterm(case: &Value, rep: &mut Report, rng: &mut Rng) {
             }
         };
         let near = |a: f32, b: f64, tol: f64| (a as f64 - b).abs() <= tol * b.abs().max(1.0);
-        if round == 3 {
+        if saturating {
             // the double-precision reference itself must stay finite (it does for |pre| < 700)
             let finite = (0..no).all(|o| eval64(&case["post"][o], &env).is_finite())
                 && (0..nx).all(|i| eval64(&case["dx"][i], &env).is_finite())
